@@ -499,7 +499,7 @@ func c20Extra(p *core.Program, r *core.Report) {
 			Reason: "no function stamps the period start when it consumes a permission"})
 	}
 	r.Floor("AF1", 3)
-	r.Floor("SR1", 2)
+	r.Floor("SR1", 1) // add replaces the timer; cancel may or may not clear the reference after stopping it
 	r.Floor("MF1", 1)
 	checkThrottleGrant(p, r)
 	r.Floor("GG1", 2)
